@@ -2,6 +2,8 @@
 objects with chosen symbol attributes, helper shared libraries (always linked by GNU ld so that
 they do not depend on the code under test), archives, and a three-linker runner."""
 import hashlib
+import os
+import threading
 from concurrent.futures import ThreadPoolExecutor
 from pathlib import Path
 
@@ -39,9 +41,14 @@ def cached_obj(d, text, stem="o"):
     h = hashlib.sha1(text.encode()).hexdigest()[:12]
     o = Path(d) / f"{stem}_{h}.o"
     if not o.exists():
-        s = o.with_suffix(".s")
+        # atomic (several threads may want the same object): build under a private name, then rename
+        tag = f"{os.getpid()}_{threading.get_ident()}"
+        s = Path(d) / f"{stem}_{h}.{tag}.s"
+        tmp = Path(d) / f"{stem}_{h}.{tag}.o.tmp"
         s.write_text(text)
-        asm.assemble(s, o)
+        asm.assemble(s, tmp)
+        os.replace(s, o.with_suffix(".s"))
+        os.replace(tmp, o)
     return o
 
 
@@ -51,14 +58,18 @@ def shared_lib(d, filename, soname, text, extra=None):
     if so.exists():
         return so
     o = cached_obj(d, text, stem=Path(filename).stem)
-    asm.gnu_ld(["-shared", "-soname", soname, "-o", so, o] + (extra or []), check=True)
+    tmp = Path(d) / f"{filename}.{os.getpid()}_{threading.get_ident()}.tmp"
+    asm.gnu_ld(["-shared", "-soname", soname, "-o", tmp, o] + (extra or []), check=True)
+    os.replace(tmp, so)
     return so
 
 
 def cached_archive(d, member, stem="lib"):
     a = Path(d) / f"{stem}_{Path(member).stem}.a"
     if not a.exists():
-        asm.archive(a, [member])
+        tmp = Path(d) / f"{a.name}.{os.getpid()}_{threading.get_ident()}.tmp"
+        asm.archive(tmp, [member])
+        os.replace(tmp, a)
     return a
 
 
